@@ -9,6 +9,8 @@
    [hint] (observed reply, acceptor form) and echoes it must test [reply_wf hint] in the model,
    otherwise its lemma is not provable. *)
 Require Import Base.Bytes Base.GoInt Base.Reply Mem.Types Mem.Strings Mem.Lists Mem.Exec Mem.Server.
+(* the other families: each owner proves <family>_dispatch_reply_wf unconditionally *)
+Require Mem.HashesProofs Mem.SetsProofs Mem.ZSetsProofs Mem.StreamsProofs.
 Local Open Scope Z_scope.
 
 Definition wf (r : reply) : Prop := reply_wf r = true.
@@ -188,16 +190,52 @@ Proof. unfold exec_lmove. wf_auto. Qed.
 Lemma exec_lpos_wf d args : wf (fst (exec_lpos d args)).
 Proof. unfold exec_lpos. wf_auto. Qed.
 
-(* BLPOP/BRPOP reply with the key name and the element: both as bulk strings *)
-Lemma bpop_scan_wf l : forall keys d, wf (fst (bpop_scan l d keys)).
+(* BLPOP/BRPOP reply with the key name and the element: both as bulk strings.  The blocking
+   loop (Lists.block) only ever returns what one polling round (bpop_try) produced, or nil. *)
+Lemma bpop_try_wf l : forall keys d r d', bpop_try l d keys = Some (r, d') -> wf r.
 Proof.
-  induction keys as [|k keys IH]; intros d; cbn [bpop_scan]; [reflexivity|].
-  destruct (get_list d k); [apply IH|reflexivity|].
-  destruct l; [destruct l0|destruct (rev l0)]; try apply IH; reflexivity.
+  induction keys as [|k keys IH]; intros d r d' H; cbn [bpop_try] in H; [discriminate|].
+  destruct (get_list d k) as [| |l0]; [exact (IH _ _ _ H)|injection H as <- _; reflexivity|].
+  destruct l; [destruct l0|destruct (rev l0)];
+    first [exact (IH _ _ _ H)|injection H as <- _; reflexivity].
+Qed.
+
+Lemma iter_until_inl {X Y : Type} (P : Y -> Prop) (f : X -> Y + X) :
+  (forall x y, f x = inl y -> P y) ->
+  forall p x y, iter_until p f x = inl y -> P y.
+Proof.
+  intros Hf. induction p as [q IH|q IH|]; intros x y H; cbn [iter_until] in H.
+  - destruct (f x) as [y0|x0] eqn:E0; [injection H as <-; exact (Hf _ _ E0)|].
+    destruct (iter_until q f x0) as [y1|x1] eqn:E1; [injection H as <-; exact (IH _ _ E1)|].
+    exact (IH _ _ H).
+  - destruct (iter_until q f x) as [y1|x1] eqn:E1; [injection H as <-; exact (IH _ _ E1)|].
+    exact (IH _ _ H).
+  - exact (Hf _ _ H).
+Qed.
+
+Lemma btick_inl_poll {S O R : Type} (poll : S -> Z -> option (R * S)) (P : R -> Prop) :
+  (forall s t r s', poll s t = Some (r, s') -> P r) ->
+  forall t0 (st : bst (S := S) (O := O)) r st', btick poll t0 st = inl (r, st') -> P r.
+Proof.
+  intros Hp t0 st r st' H. unfold btick in H.
+  destruct (run_due _ (b_evs st) (b_s st)) as [[evs s] os].
+  destruct (poll s _) as [[r0 s0]|] eqn:E; [|discriminate H].
+  injection H as <- _. exact (Hp _ _ _ _ E).
 Qed.
 
 Lemma exec_bpop_wf l d nowms args : wf (fst (exec_bpop l d nowms args)).
-Proof. unfold exec_bpop. repeat wf_step; try apply bpop_scan_wf; reflexivity. Qed.
+Proof.
+  unfold exec_bpop, bpop_run.
+  destruct (bpop_parse args) as [[keys t]|]; [|reflexivity].
+  unfold block, block_n.
+  destruct (iter_until _ _ _) as [[r st]|st] eqn:E.
+  - cbn [fst].
+    refine (iter_until_inl (fun y => wf (fst y)) _ _ _ _ _ E).
+    intros x [r0 st0] Hx. cbn [fst].
+    refine (btick_inl_poll (bpop_poll l keys) wf _ _ _ _ _ Hx).
+    intros s tm r1 s' Hp. unfold bpop_poll in Hp. exact (bpop_try_wf _ _ _ _ _ Hp).
+  - destruct (run_due _ (b_evs st) (b_s st)) as [[evs s] os]. reflexivity.
+Qed.
 
 Lemma lists_dispatch_wf : family_wf lists_dispatch.
 Proof.
@@ -221,6 +259,10 @@ Proof.
   repeat constructor.
   - exact strings_dispatch_wf.
   - exact lists_dispatch_wf.
+  - exact Mem.HashesProofs.hashes_dispatch_reply_wf.
+  - exact Mem.SetsProofs.sets_dispatch_reply_wf.
+  - exact Mem.ZSetsProofs.zsets_dispatch_reply_wf.
+  - exact Mem.StreamsProofs.streams_dispatch_reply_wf.
 Qed.
 
 Lemma dispatch_wf fs : Forall family_wf fs ->
